@@ -27,6 +27,39 @@ def recipes(rng):
     out = []
     def add(f, *a, **k):
         out.append(("%s.%s" % (f.__module__, f.__name__), f, list(a), dict(k)))
+    def addn(name, f, *a, **k):
+        out.append((name, f, list(a), dict(k)))
+    # stateful objects, wrapped as functions of their constructor arguments: a seeded screen and the rows added to it; a
+    # covariance matrix built from configuration arrays (which must come back untouched)
+    def kolm_rows(seed, nrows):
+        s = ips.PhaseScreenKolmogorov(8, 0.1, 0.2, 20.0, random_seed=seed, stencil_length_factor=2)
+        rows = [s.scrn.copy()]
+        for _ in range(nrows):
+            s.add_row(); rows.append(s.scrn.copy())
+        return numpy.array(rows)
+    def vk_rows(seed, nrows):
+        s = ips.PhaseScreenVonKarman(8, 0.1, 0.2, 20.0, random_seed=seed)
+        rows = [s.scrn.copy()]
+        for _ in range(nrows):
+            rows.append(s.add_row().copy())
+        return numpy.array(rows)
+    addn("aotools.turbulence.infinitephasescreen.PhaseScreenKolmogorov.get_new_row", kolm_rows, 3, 3)
+    addn("aotools.turbulence.infinitephasescreen.PhaseScreenVonKarman.__init__", vk_rows, 3, 3)
+    def covmat(masks, sub_d, gs_alt, gs_pos, wvl, hs, r0s, L0s):
+        cm = sc.CovarianceMatrix(len(masks), list(masks), 1.0, sub_d, gs_alt, gs_pos, wvl, len(hs), hs, r0s, L0s, threads=1)
+        return cm.make_covariance_matrix().copy()
+    mk = numpy.ones((2, 2))
+    addn("aotools.turbulence.slopecovariance.CovarianceMatrix.make_covariance_matrix", covmat, numpy.array([mk, mk]), numpy.array([0.5, 0.5]),
+         numpy.array([0.0, 90e3]), numpy.array([[0.0, 0.0], [1e-5, -2e-5]]), numpy.array([5e-7, 5e-7]), numpy.array([0.0, 4000.0]), numpy.array([0.2, 0.4]),
+         numpy.array([25.0, 30.0]))
+    # Karhunen-Loeve building blocks called directly, kernels in row-major and in column-major layout
+    rad_ = kl.gkl_radii(0.25, 10)
+    import warnings
+    with warnings.catch_warnings():
+        warnings.simplefilter("ignore")
+        kern = kl.gkl_kernel(0.25, 10, rad_)
+    add(kl.gkl_kernel, 0.25, 10, rad_.copy()); add(kl.gkl_basis, 0.25, 10, 16, 12)
+    add(kl.gkl_fcom, 0.25, kern.copy(), 12); add(kl.gkl_fcom, 0.25, numpy.asfortranarray(kern), 12); add(kl.gkl_fcom, 0.25, numpy.asfortranarray(kern), 7)
     d = 0.1
     for f in (ftm.ft, ftm.ift, ftm.rft):
         add(f, cplx(rng, 3, 8) if f is not ftm.rft else img(rng, 3, 8), d)
@@ -94,8 +127,7 @@ NOT_EXERCISED = {
     "aotools.turbulence.temporal_ps.fit_tps": "calls an undefined module-level function (test_tps_fit_minimize_func) -- raises NameError",
     "aotools.interpolation.zoom": "scipy.interpolate.interp2d removed from the installed SciPy (known finding C16-zoom-interp2d-removed)",
     "aotools.fouriertransform.irft2": "raises / wrong shape (known finding C09-irft2-shape)",
-    "aotools.functions.karhunenLoeve.gkl_kernel": "exercised through make_kl", "aotools.functions.karhunenLoeve.gkl_fcom": "exercised through make_kl",
-    "aotools.functions.karhunenLoeve.gkl_azimuthal": "exercised through make_kl", "aotools.functions.karhunenLoeve.gkl_basis": "exercised through make_kl",
+    "aotools.functions.karhunenLoeve.gkl_azimuthal": "exercised through make_kl", 
     "aotools.functions.karhunenLoeve.gkl_sfi": "exercised through make_kl", "aotools.functions.karhunenLoeve.radii": "exercised through make_kl",
     "aotools.functions.karhunenLoeve.polang": "exercised through make_kl", "aotools.functions.karhunenLoeve.set_pctr": "exercised through make_kl",
     "aotools.functions.karhunenLoeve.setpincs": "exercised through make_kl", "aotools.functions.karhunenLoeve.pcgeom": "exercised through make_kl",
